@@ -236,6 +236,35 @@ Section VauthProofs.
        [intros x Hx; apply upd_other; auto | apply upd_same]).
   Qed.
 
+  (* a submission carried by an ICA packet that does not succeed changes nothing at all (no fee on that route) *)
+  Lemma rejected_ica_submission_inert : forall st sub acc ok g,
+    snd (step st (OIcaSubmit sub acc ok g)) <> RSubmit SOk -> fst (step st (OIcaSubmit sub acc ok g)) = st.
+  Proof.
+    intros st sub acc ok g. cbn [Vauth.step].
+    destruct (msg_valid verifies sub acc ok g); [|reflexivity].
+    destruct (submit_msg st sub acc g) as [st' r] eqn:Hs. cbn [fst snd].
+    pose proof (submit_msg_cases _ _ _ _ _ _ Hs) as Hc. destruct r; try (intros _; exact Hc). intros H. congruence.
+  Qed.
+
+  (* ... and one that succeeds costs the interchain account exactly COST, burnt *)
+  Lemma ica_submission_cost : forall st sub acc ok g,
+    snd (step st (OIcaSubmit sub acc ok g)) = RSubmit SOk ->
+    let st' := fst (step st (OIcaSubmit sub acc ok g)) in
+    bal st' sub = bal st sub - COST /\ (forall x, x <> sub -> bal st' x = bal st x) /\ supply st' = supply st - COST /\
+    proofs st' acc = Some g /\ proofs st acc = None /\ verifies acc (s_bytes g) = true /\ COST <= bal st sub.
+  Proof.
+    intros st sub acc ok g. cbn [Vauth.step].
+    destruct (msg_valid verifies sub acc ok g) eqn:Hv; [|cbn; discriminate].
+    destruct (submit_msg st sub acc g) as [st' r] eqn:Hs. cbn [fst snd]. intros Hr. inversion Hr; subst r.
+    pose proof (submit_msg_cases _ _ _ _ _ _ Hs) as Hc. cbn beta iota in Hc.
+    destruct Hc as (_ & Hn & Hcost & Hp & Hb & Hsup & _). rewrite Hp, Hb.
+    repeat split; auto.
+    - apply upd_same.
+    - intros x Hx. apply upd_other; exact Hx.
+    - apply upd_same.
+    - eapply msg_valid_verifies; eauto.
+  Qed.
+
   (* ---------------------------------------------------------------- vesting needs a proof *)
 
   Lemma in_targets : forall l a, In a (targets l) -> exists r k, In (r, MVesting k a) l.
